@@ -39,6 +39,12 @@ for cap, cap2, tier in ((1, 1, 'quick'), (2, 3, 'quick'), (4, 3, 'quick'), (5, 5
                 props=['C19', 'C11'] + (['C14'] if pl and entry == 'proof_da_copy_clear' else []), tier=t, unwind=max(cap, cap2, 4) + 2, objbits=10, carriers=DA_CARRIERS,
                 case_key='DynamicArrayT<TransitionT<%s>,%d>+=<%d>' % ('int' if pl else 'void', cap, cap2))
 
+# capacities at the boundary of the index type (uint8_t up to 255 items, wider from 256 on)
+for cap, tier in ((256, 'quick'), (255, 'thorough'), (257, 'thorough')):
+    for entry in ('proof_da_init', 'proof_da_emplace_copy', 'proof_da_copy_clear'):        # (the bulk-append harness does not finish at this size)
+        job(id='C19.array.cap%d_3.%s' % (cap, entry[6:]), tu='tier_a/arrays.cpp', defs={'CAP': cap, 'CAP2': 3}, entry=entry, props=['C19', 'C11'], quick_for=['C19'], tier=tier, unwind=cap + 3, objbits=10,
+            timeout=900, carriers=DA_CARRIERS, case_key='DynamicArrayT<TransitionT<void>,%d>+=<3> (index-type boundary)' % cap)
+
 # ------------------------------------------------------------------ C20 generators
 RNG_CARRIERS = {
  'proof_splitmix64': [r'SimpleRandomT<8u>::raw64'], 'proof_splitmix32': [r'SimpleRandomT<4u>::raw32'],
@@ -302,8 +308,9 @@ for variant, vdefs in (('user_rng', {}), ('builtin_rng', {'VD_BUILTIN_RNG': None
                     case_key='determinism/%s/script %d/%s/%s' % (variant, script, entry[6:], 'sroa' if sroa else 'un-promoted IR'))
 
 # ------------------------------------------------------------------ Tier B: plan storage over symbolic contents (C07)
+# (task capacity 6 does not finish in 15 min per job - symbolic contents of six linked tasks - and is not part of any tier)
 PLAN_CARRIERS = [r'PlanT<.*>::append', r'PlanT<.*>::linkTask', r'PlanT<.*>::remove', r'PlanT<.*>::clearTasks', r'PlanT<.*>::Iterator::operator\+\+', r'PlanDataT<.*>::clear\(\)', r'TaskListT<.*>::emplace', r'TaskListT<.*>::remove']
-for tcap, payload, tier in ((1, False, 'quick'), (2, False, 'quick'), (3, False, 'quick'), (3, True, 'quick'), (4, False, 'thorough'), (4, True, 'thorough'), (6, False, 'thorough'), (2, True, 'thorough')):
+for tcap, payload, tier in ((1, False, 'quick'), (2, False, 'quick'), (3, False, 'quick'), (3, True, 'quick'), (4, False, 'thorough'), (4, True, 'thorough'), (2, True, 'thorough')):
     defs = {'VP_TCAP': tcap}
     if payload: defs['VP_PAYLOAD'] = None
     for entry in ('proof_append', 'proof_remove', 'proof_iterate', 'proof_clear_tasks', 'proof_init_clear'):
